@@ -496,8 +496,12 @@ class Gen:
                     self.try_op('getitem', [self.L[-1]], {'i': 0}, ['S'])
             else:
                 self.try_op('const', [], {'value': self.rand_val()}, ['S'])
-        if not self.S:
+        for _ in range(20):
+            if self.S:
+                break
             self.try_op('const', [], {'value': self.rand_val()}, ['S'])
+        if not self.S:
+            self.try_op('const', [], {'value': [1, 2]}, ['S'])
 
     def step(self):
         rng = self.rng
